@@ -39,6 +39,8 @@ def gen_column(rng, n, kind):
             out.append(rng.choice(WORDS))
         elif k == 'zero':
             out.append(0)
+        elif k == 'emptytext':
+            out.append('')
         elif k == 'bool':
             out.append(rng.random() < 0.5)
         else:
@@ -46,7 +48,7 @@ def gen_column(rng, n, kind):
     return out
 
 
-KINDS = [['pos'], ['pos'], ['int'], ['int', 'float'], ['text'], ['text'], ['pos', 'text'], ['pos', 'blank'], ['int', 'neg', 'float'],
+KINDS = [['pos', 'emptytext'], ['zero', 'emptytext', 'pos'], ['pos'], ['pos'], ['int'], ['int', 'float'], ['text'], ['text'], ['pos', 'text'], ['pos', 'blank'], ['int', 'neg', 'float'],
          ['text', 'blank'], ['pos', 'zero'], ['pos', 'text', 'blank', 'float']]
 
 
